@@ -17,6 +17,7 @@ PROPERTY = {
             "lemma_downgrading_same_target_bound": "any failure history: at most 1 same-target retry (Downgrading)",
         }, carries_lemmas=("lemma_default_same_target_bound", "lemma_downgrading_same_target_bound")),
     ],
+    "explanation": "mixed: the three policies' decision tables and the history lemmas are unbounded Verus proofs over the full input domain; the accessor that keeps one retry session per request context is a bounded Kani harness (3 uses); see samples",
     "kani": [
         Harness("c06_retry_session_persists", "C06.execution.retry_session.persists", "BOUNDED",
                 "ExecuteRequestContext::retry_session: the first use asks the policy for a session, each later use on the same request context returns that same object (address and state) and the policy is not asked again",
